@@ -124,6 +124,13 @@ def LevelsInv (c : Cfg) : Prop :=
 
 /-! ### exceptions -/
 
+/-- loop-control instructions: the frames of `run()` / `_mainloop` / `_process_signal`; everything
+else is (part of) the body of a handler or of the start-up code -/
+def Instr.isLC : Instr → Bool
+  | .apprun | .catchExit | .quitCb | .mainCheck _ | .restoreRun | .loopCheck | .getDispatch
+  | .processSignal _ | .dispatch .. | .catchHandler | .kill _ => true
+  | _ => false
+
 /-- the instructions at which an ordinary exception (`Kind.err`) is caught -/
 def Instr.catchesErr : Instr → Bool
   | .catchHandler | .catchPS | .catchDraw | .catchPI _ => true
